@@ -484,7 +484,8 @@ def run(chk, replay=None):
     chk.coverage['translator'] = {'status': 'ok' if not info['unparsed'] else 'partial', 'entries': len(info['entries']),
                                   'conversions': len(info['conversions']), 'unparsed': info['unparsed'],
                                   'outside_modelled_class': info['outside'],
-                                  'fingerprints': info['fingerprints'],
+                                  'fingerprints': info['fingerprints'], 'similarity(se,re)': info.get('similarity'),
+                                  'shift_phase(sf,pe,qe)': info.get('shift_phase'),
                                   'entries_using_raw_f': [e['test'][:50] for e in info['entries'] if not all(g['use_sf'] for g in e['terms'])]}
     # ---- 2. proofs
     broken = chk.lean(['Lcapy/Props/C12.lean'],
@@ -794,6 +795,29 @@ def run(chk, replay=None):
                 p = Piece((1, 0), mod, th, k, a, b)
                 one_case(direction, 'f', [p], 'atom-sweep', with_roundtrip=not k.startswith(('inv', 'cpole')))
 
+    # ---- 3a'. tabulated pulses that are BOTH scaled (a != 1) and shifted (b != 0), both directions: the delay of x(at+b) is b/a
+    #           (pure shifts and pure scalings cannot tell b/a from b)
+    ss_atoms = ['rect', 'tri', 'sinc', 'step'] if quick else ['rect', 'tri', 'sinc', 'sinc2', 'step', 'sgn', 'abs', 'gauss']
+    ss_args = [(Fraction(1, 2), -1)] if quick else [(Fraction(1, 2), -1), (3, -2), (-2, 3), (Fraction(3, 2), Fraction(1, 2))]
+    for k in ss_atoms:
+        for direction in ('fwd', 'inv'):
+            for (a, b) in ss_args:
+                chk.count('deterministic', 'scaled+shifted')
+                one_case(direction, 'f', [Piece((1, 0), 'none', 0, k, a, b)], 'scaled+shifted', with_roundtrip=True)
+    # ---- 3a''. inverse transforms taken FROM each of the four frequency variables, and x.FT(var).IFT() round trips
+    from_var = [Piece((1, 0), 'none', 0, 'sinc', 1, 0), Piece((1, 0), 'none', 0, 'cpole:1:3:0', 1, 0),
+                Piece((2, 0), 'none', 0, 'delta:0', 1, -1), Piece((1, 0), 'none', 0, 'rect', 2, -1)]
+    rt_var = [Piece((1, 0), 'none', 0, 'rect', 2, -1), Piece((1, 0), 'none', 0, 'expu:0:3:0', 1, 0)]
+    if not quick:
+        from_var += [Piece((1, 0), 'none', 0, 'gauss', 1, 0), Piece((1, 0), 'none', 0, 'tri', Fraction(1, 2), 1), Piece((1, 0), 'none', 0, 'inv1', 1, 0)]
+        rt_var += [Piece((1, 0), 'none', 0, 'tri', Fraction(1, 2), -1), Piece((1, 0), 'cos', 2, 'rect', 1, 0)]
+    for dom in DOMS:
+        for p in from_var:
+            chk.count('deterministic', 'inverse-from-' + dom)
+            one_case('inv', dom, [p], 'inverse-from-variable')
+        for p in rt_var:
+            chk.count('deterministic', 'FT(%s).IFT()' % dom)
+            one_case('fwd', dom, [p], 'roundtrip-through-variable', with_roundtrip=True)
     tick('atom-sweep')
     # ---- 3b. random signals, forward (all four variables) with round trip
     for i in range(n_fwd):
